@@ -433,6 +433,13 @@ func (in *Interp) verifrt(name string, args []Value, site ssa.Instruction) (Valu
 		case *smt.Term:
 			return unwrapNum(c.Ite(cnd, in.num(args[1]), in.num(args[2]))), true
 		}
+	case "Branch":
+		switch b := args[0].(type) {
+		case bool:
+			return b, true
+		case *smt.Term:
+			return p.DecideBool(in, b, in.site(site)), true
+		}
 	case "Tier":
 		return in.tier, true
 	case "Thorough":
